@@ -56,6 +56,9 @@ func (q *UnsafeQuery) Close() {
 	}
 	q.cursor.archetype = -2
 	q.cursor.table = -2
+	// No entities left in the current table: a further call of Next fails like after a completed iteration.
+	q.cursor.index = 0
+	q.cursor.maxIndex = -1
 	q.tables = nil
 	q.table = nil
 	q.world.unlockSafe(q.lock)
